@@ -248,6 +248,20 @@ int main(int argc, char **argv) {
           CmpResult r; if (TT.t[sub].op == TT.OP_C || TT.t[sub].op == TT.OP_CF) found = true; // a constant carries no dependence to demand
           if (!found) { r.v = V_VIOLATION; r.how = jstr(o, "why", "the cell is not computed from the required earlier result"); r.got = TT.str(t, 4); r.expected = "a term containing " + TT.str(sub, 3); }
           report(r, da.name, c, cellSrc(da, c));
+        } else if (kind == "no_narrowing") { // value flow: no result cell of a double-precision computation may be derived through a
+          // conversion to a narrower floating-point type (fptrunc): a necessary condition of every "proportional to eps of the element
+          // type" bound, invisible to the exact-arithmetic comparison (over the reals the conversion is the identity)
+          auto ia = regIx.find(jstr(o, "region")); if (ia == regIx.end()) { setupErrors.push_back("no_narrowing: unknown region"); continue; }
+          RegionDecl &da = regs[ia->second]; int64_t n = jint(o, "cells", da.cells);
+          std::set<int> seen; // shared across cells: a sub-DAG already found clean is not walked again
+          for (int64_t c = 0; c < n; c++) {
+            int t = cellTerm(da, c); int bad = -1; std::vector<int> st{t};
+            while (!st.empty() && bad < 0) { int u = st.back(); st.pop_back(); if (!seen.insert(u).second) continue; const Term &x = TT.t[u]; if (x.op == TT.OP_SYM || x.op == TT.OP_PTR) continue;
+              if (OPS.name(x.op) == "fptrunc" && TT.t[x.a[0]].op != TT.OP_CF) { bad = u; break; } for (int a : x.a) st.push_back(a); }
+            CmpResult r; if (bad >= 0) { r.v = V_VIOLATION; r.how = "the value passes through a conversion to a narrower floating-point type"; r.got = TT.str(bad, 3); r.expected = "no fptrunc on the data path of a double-precision result"; }
+            report(r, da.name, c, cellSrc(da, c));
+            if (bad >= 0) break; // one report per region is enough
+          }
         } else if (kind == "independent") { // the cell's term must not mention the given symbols (claimed only for linear / copy forms)
           auto ia = regIx.find(jstr(o, "region")); if (ia == regIx.end()) { setupErrors.push_back("independent: unknown region"); continue; }
           RegionDecl &da = regs[ia->second]; int64_t c = jint(o, "cell"); std::string ns = jstr(o, "ns"); auto nit = TT.nsix.find(ns); const json::Array *no = o.getArray("cells");
